@@ -1,6 +1,7 @@
 package sim
 
 import (
+	"runtime"
 	"syscall"
 	"unsafe"
 )
@@ -165,4 +166,24 @@ func (b *Baton) waitTimeout(ms int) (kind, id int, ok, timedOut bool) {
 	}
 	kind, id, ok = b.wait()
 	return kind, id, ok, false
+}
+
+// curGID: the id of the calling goroutine (yield hooks that can be reached
+// from goroutines of the code under test - an asynchronous compressor writing
+// to the sink - use it to let only the client goroutine itself yield).
+//
+//go:norace
+func curGID() uint64 {
+	var buf [48]byte
+	n := runtime.Stack(buf[:], false)
+	// "goroutine 123 [running]:"
+	var id uint64
+	for i := len("goroutine "); i < n; i++ {
+		c := buf[i]
+		if c < '0' || c > '9' {
+			break
+		}
+		id = id*10 + uint64(c-'0')
+	}
+	return id
 }
